@@ -3,6 +3,8 @@ import Yaql.Drv.C10
 import Yaql.Drv.C17
 import Yaql.Model.ConvertId
 import Yaql.Model.Effects
+import Yaql.Model.GroupAgg
+import Yaql.Drv.ValueJson
 /-! Driver for C09.
 `conv` cases: the converters with allocation identities.  Codec of `Yaql.Convert.Obj`: C10's codec of `Py` plus
 an `"id"` on every container; `{"z": src, "id": n, "l": [..]}` is a lazily wrapped iterable.
@@ -114,8 +116,45 @@ def ctx (req : Json) : Json :=
       (st', jo [("r", js r), ("obs", C17.observe st' names fnames), ("ncells", jn st'.cells.length)] :: acc)
   jo [("steps", jl out.reverse)]
 
+/-! `gagg` cases: `queries.GroupAggregator` (Model/GroupAgg.lean).  The user's aggregator is a finite table
+`[[argument, outcome]..]` over the arguments it can be called with (`{"ok": v}` / `{"res": tag}` = a
+NoMatching* / IndexError / `{"oth": tag}` = any other exception); a sequence of `groupBy` evaluations each
+`{"agg": table, "groups": [[key, [values]]..]}` is run per call and - `"shared": true` - with ONE aggregator
+state threaded through. -/
+
+def gaggErrOfJson (j : Json) : Except GroupAgg.Err Value :=
+  if jhas j "ok" then .ok (valOfJson (jget j "ok"))
+  else if jhas j "res" then .error (.resolution (jnat j "res"))
+  else .error (.other (jnat j "oth"))
+
+def gaggTable (rows : List Json) : GroupAgg.Agg := fun arg =>
+  match rows.find? (fun r => match asArr r with | [a, _] => valOfJson a == arg | _ => false) with
+  | some r => (match asArr r with | [_, o] => gaggErrOfJson o | _ => .error (.other 999))
+  | none => .error (.other 999)
+
+def gaggErrToJson : GroupAgg.Err → Json
+  | .resolution t => jo [("res", jn t)]
+  | .other t => jo [("oth", jn t)]
+
+def gaggStmt (j : Json) : GroupAgg.Stmt :=
+  { agg := gaggTable (jarr j "agg"),
+    groups := (jarr j "groups").map fun g =>
+      match asArr g with
+      | [k, vs] => (valOfJson k, (asArr vs).map valOfJson)
+      | _ => (.null, []) }
+
+def gagg (c : Json) : Json :=
+  let allow := (jget c "allow") == Json.bool true
+  let stmts := (jarr c "stmts").map gaggStmt
+  let outs := if (jget c "shared") == Json.bool true then GroupAgg.poolShared (GroupAgg.St.fresh allow) stmts
+              else GroupAgg.poolPerCall allow stmts
+  jo [("outs", jl (outs.map fun o =>
+    match o with
+    | .ok rs => jo [("ok", jl (rs.map valToJson))]
+    | .error e => jo [("err", gaggErrToJson e)]))]
+
 def one (c : Json) : Json :=
-  if jstr c "op" == "ctx" then ctx c else conv c
+  if jstr c "op" == "ctx" then ctx c else if jstr c "op" == "gagg" then gagg c else conv c
 
 def handle (req : Json) : Json :=
   jo [("res", jl ((jarr req "cases").map one))]
